@@ -67,6 +67,16 @@ def setup_ops(g, sl, base_seq=100):
 
 
 # operations explored from every state: (name, script after setup, kind)
+TORN_START = ["start-w%d" % j for j in range(1, 8)]
+
+
+def torn_start_scripts(g):
+    """power lost after j of the 8 header programs of start_update (both slots erased): slots that are neither erased nor
+       parse.  Followed by what a device does next: reboot, fallback query, recovery, a new start, fallback query."""
+    start = "start %d %d" % (SZ, CNT)
+    return [("start-w%d" % j, ["crash %d" % (2 * g.B + j), start, "reboot", "fb", "recover", "drop", start, "drop", "fb", "hdrs"]) for j in range(1, 8)]
+
+
 def op_scripts(g):
     B = g.B
     start = "start %d %d" % (SZ, CNT)
@@ -120,9 +130,10 @@ def in_progress(sl):
     return sorted(i for i, h in enumerate(sl) if h is not None and h[2] == "IP")
 
 
-def explore(chk, ns, max_states, variant="matrix", with_model=True, budget_s=600, stop_keys=None):
+def explore(chk, ns, max_states, variant="matrix", with_model=True, budget_s=600, stop_keys=None, torn_start=False):
     g = Geo(ns)
     ops = op_scripts(g)
+    tops = torn_start_scripts(g) if torn_start else []
     init = (tuple([None] * ns), (None, None, (), frozenset(), None))
     seen = {init}
     frontier = [init]
@@ -141,7 +152,7 @@ def explore(chk, ns, max_states, variant="matrix", with_model=True, budget_s=600
         for st in frontier:
             sl, ghost = st
             pre = setup_ops(g, sl)
-            for name, script in ops:
+            for name, script in ops + (tops if ghost[2] else []):      # the torn-start probes only where a confirmed image exists
                 cases.append("%d %d %d|%s" % (ns, g.slot, g.blk, ";".join(pre + script)))
                 index.append((st, name, len(pre)))
         impl = core.run_stream(fvh, "session", cases)
@@ -203,6 +214,20 @@ def explore(chk, ns, max_states, variant="matrix", with_model=True, budget_s=600
                             nxt.append((norm(after), (f, nack, nconf, nstarted, None)))
                 else:
                     nxt.append((norm(after), (ncopy, nack, nconf, nstarted, None)))
+            # ---- half-written headers of an interrupted start: the fallback survives the reboot, the recovery and the next start
+            for name in TORN_START:
+                if name not in res or fb is None:
+                    continue
+                toks = res[name][0]        # [crash, start, reboot, fb, recover, drop, start, drop, fb, hdrs]
+                for qi, when in ((3, "after the reboot"), (8, "after recovery and a new start")):
+                    if toks[qi][0] != "some:%d" % fb:
+                        bad("c05", "power lost inside start_update (%s: %d of its 8 header programs done): fallback_firmware = %s %s, the most recently confirmed image is in slot %d (headers %s)" % (name, int(name[7:]), toks[qi][0], when, fb, sl), name)
+                        break
+                else:
+                    if fb in slots_touched(g, [toks[1], toks[4], toks[6]]):
+                        bad("c05", "power lost inside start_update (%s): the interrupted start, the recovery or the next start erases / programs slot %d which holds the most recently confirmed image (headers %s)" % (name, fb, sl), name)
+                    elif not toks[6][0].startswith("ok"):
+                        bad("c05", "after a power loss inside start_update (%s) the next start fails: %s (headers %s)" % (name, toks[6][0], sl), name)
             # ---- recovery
             toks = res["recover"][0]
             r = toks[0][0]
